@@ -15,7 +15,9 @@ from .. import canon, core, e1, refcodec
 from ..world import ClientRec, ServerRec, make_sd, timings, RandomSeam, Choice
 
 INF = 0xFFFFFF
-A = {"A1": ("192.0.2.31", 30490), "A2": ("192.0.2.32", 30490)}
+A = {"A1": ("192.0.2.31", 30490), "A2": ("192.0.2.32", 30490),
+     # two peers that differ only in the scope id of their link-local address
+     "A3": ("fe80::31", 30490, 0, 2), "A4": ("fe80::31", 30490, 0, 3)}
 SID = 0x5151
 
 
@@ -287,7 +289,7 @@ def configs(ctx):
                          fine=ctx.pick(1, 2), reject=True), CLOSURE))
         # two keys, two addresses, the long TTLs
         out.append((f"{mode}-2keys-2addrs",
-                    dict(mode=mode, keys=("K1", "K2"), addrs=("A1", "A2"), ttls=(1, 3, 0xFFFFFE, INF), advs=base_advs,
+                    dict(mode=mode, keys=("K1", "K2"), addrs=("A3", "A4"), ttls=(1, 3, 0xFFFFFE, INF), advs=base_advs,
                          fine=1), ctx.pick(3, 4)))
     return out
 
